@@ -48,3 +48,4 @@ def nontrivial(c, obs):
 def matches_known(entry, c, obs):
     why = predicate(c, obs) or ""
     return why.startswith("[%s]" % entry["id"])
+SECONDARY = ["c06_account"]
